@@ -1,3 +1,4 @@
+//@ requires base errors iter path_abs
 // ---- abstract state of one Memfs instance and the MemfsGuard shim (L4)
 // The unit that includes this prelude extracts the real `struct MemfsEntry` and `struct MemfsFile` from /repo.
 pub struct EntryV {
